@@ -214,6 +214,14 @@ def rate_case(r):
             ops.append("srstep %d -" % now)
         else:
             ops.append("srsent %d" % now)
+    if r.random() < 0.4:
+        # long silence: every step is past the no-feedback deadline; the sender keeps transmitting (or stays idle)
+        busy = r.random() < 0.7
+        for t in range(r.choice([5, 12, 20, 30])):
+            if busy or r.random() < 0.3:
+                ops.append("srsent %d" % now)
+            now += r.choice([100000, 500000, 3000000])
+            ops.append("srstep %d -" % now)
     return ops
 
 
